@@ -56,8 +56,10 @@ def run_cases(draw, quick):
         t = float(round(draw(st.floats(0.05, tf - 0.3)), 4))
         e = dict(kind=kind, t=t, cls='offgrid', u=1, sel=draw(st.integers(0, 60)))
         if kind == 'alter':
-            e.update(target=draw(st.sampled_from(['line_x', 'pq_p0'])), method=draw(st.sampled_from(['*', '+'])),
+            e.update(target=draw(st.sampled_from(['line_x', 'pq_p0', 'gen_M', 'gen_M'])), method=draw(st.sampled_from(['*', '+'])),
                      amount=draw(st.sampled_from([1.1, 0.01])))
+            if e['target'] == 'gen_M':
+                e.update(method='*', amount=draw(st.sampled_from([0.5, 2.0])))
         if kind == 'fault':
             e['dur'] = draw(st.sampled_from([0.02, 0.05]))
         ev.append(e)
@@ -144,7 +146,10 @@ def check_run(ctx, c):
         x1, f1 = rec['x'], rec['f']
         if len(x0) != n or len(x1) != n:
             continue
-        q = Tf * (x1 - x0) - h * (theta * f1 + (1 - theta) * f0)
+        Tk = rec.get('Tf', Tf)          # an Alter event may change a time constant during the run
+        if len(Tk) != n:
+            Tk = Tf
+        q = Tk * (x1 - x0) - h * (theta * f1 + (1 - theta) * f0)
         rs = rec.get('rowsum')
         bound = 2 * tol * (rs[:n] if rs is not None else np.ones(n)) + 1e-11 * (1 + np.abs(Tf * x1))
         peg = set(rec.get('pegged', []))
@@ -238,6 +243,17 @@ def camp_rule(ctx):
             c = dict(base=base, events=[], tf=1.6, cfg=cfg, own=True)
             ctx.current_case = c
             ctx.evaluated()
+            check_run(ctx, c)
+    if ctx.shard == 1 % ctx.nshards:
+        # anchor: an inertia constant (a time constant of the swing equation) altered during the run
+        for m in ('trapezoid', 'backeuler'):
+            c = dict(base='kundur/kundur_full.xlsx', tf=1.2, own=False,
+                     events=[dict(kind='alter', t=0.3, cls='offgrid', u=1, sel=1, target='gen_M', method='*', amount=0.5),
+                             dict(kind='toggle_line', t=0.5, cls='offgrid', u=1, sel=3)],
+                     cfg=dict(method=m, fixt=1, tstep=1 / 30, g_scale=1, honest=0, tol=1e-8, shrinkt=1, sparselib='klu'))
+            ctx.current_case = c
+            ctx.evaluated()
+            ctx.count('anchor_time_constant_altered')
             check_run(ctx, c)
     # anchors: every stable stock case with its stock disturbance, both methods, default and tight tolerance
     anchors = [(b, m, tol) for b in STABLE for m in ('trapezoid', 'backeuler') for tol in (1e-4, 1e-8)]
